@@ -292,20 +292,19 @@ class Runner:
             ens = [ob for ob in obs if ob.kind in ("ensures", "raises-when", "raises-ensures", "no-raise", "inv-preserved")]
             if ens:
                 WORK.append(("canary", self, E, ens[0]))
-        # the pool is forked AFTER generation: workers inherit the z3 terms and build + solve their obligations in-process
-        if WORK:
-            pool = mp.get_context("fork").Pool(min(16, os.cpu_count() or 4))
-            try:
-                res = pool.map(work_item, range(len(WORK)), chunksize=1)
-            finally:
-                pool.close()
-        else:
-            res = []
+        # workers are forked AFTER generation: they inherit the z3 terms and build + solve their obligations in-process
+        from .forkpool import run_forked
+
+        res = run_forked(len(WORK), work_item, min(16, os.cpu_count() or 4), self.budget["ob_s"] + 45) if WORK else []
         obligations = []
         for (kind, _, E, ob), r in zip(WORK, res):
             if kind == "canary":
                 if r["verdict"] == "unsat":
                     self.problems.append({"function": E.c.qual, "kind": "vacuity", "detail": "canary: the path condition of a checked path is contradictory"})
+                continue
+            if r.get("killed"):
+                self.problems.append({"function": ob.id, "where": ob.where, "kind": "unknown", "detail": f"solver killed after {r['secs']}s (hard budget)"})
+                obligations.append({"id": ob.id, "where": ob.where, "status": "unknown", "subgoals": 0, "backends": [], "solver_s": r["secs"]})
                 continue
             if r.get("error"):
                 self.problems.append({"function": ob.id, "kind": "checker-error", "detail": r["error"][-600:]})
